@@ -568,6 +568,14 @@ theorem spells_float_exp (neg : Bool) (ip fp : List Char) (upper : Bool) (sign :
   rw [this]
   exact lexS_float_exp neg ip fp upper sign ed rest line hne hi hf hene hed hlen hs
 
+/-- decimals that start with the point: `.5`, `-.25` -/
+theorem spells_float_dot (neg : Bool) (fp : List Char) (hne : fp ≠ []) (hf : ∀ c ∈ fp, isDig c = true) (hlen : fp.length ≤ 5000) :
+    Spells (signChars neg ++ ('.' :: fp)) .float (floatTokVal neg [] fp) (StopsAt (fun c => isDig c || c == 'e' || c == 'E')) := by
+  intro rest line hs
+  have : signChars neg ++ ('.' :: fp) ++ rest = signChars neg ++ ('.' :: (fp ++ rest)) := by simp
+  rw [this]
+  exact lexS_float_dot neg fp rest line hne hf hlen hs
+
 /-- non-vacuity: `1.5e3` is the number 1500, `2.5E-1` is 1/4 -/
 example : floatExpTokVal false ['1'] ['5'] (expVal none ['3']) = .float 1500 ∧ floatExpTokVal false ['2'] ['5'] (expVal (some true) ['1']) = .float (1 / 4) := by
   decide +kernel
